@@ -404,3 +404,33 @@ def declare_c11(E):
                raises={"SSHException": {"when": "True", "ensures": ["not held(self.clear_to_send_lock)"]},
                        "EOFError": {"when": "True", "ensures": ["not held(self.clear_to_send_lock)"]},
                        "OSError": {"when": "True", "ensures": ["not held(self.clear_to_send_lock)"]}})
+
+
+def newkeys_variant(E, name, ensures, requires=None):
+    """Transport._parse_newkeys in its own small environment (shared by C16: the server's AuthHandler survives a re-key,
+    and C10: the exchange is left on the packetizer's state AFTER both directions have switched)"""
+    T = "paramiko.transport.Transport."
+    E2 = type(E)()
+    E2.auto_opaque = True
+    E2.declare_ghost(handlers_created="int", inbound_switched="bool", need_asked_after_switch="bool")
+    E2.declare_class("paramiko.transport.Transport", {
+        "server_mode": "bool", "auth_handler": "opt[opaque:AuthH]", "initial_kex_done": "bool", "in_kex": "bool",
+        "completion_event": "opt[opaque:Event]", "packetizer": "opaque:Pk", "clear_to_send_lock": "opaque:Lock",
+        "clear_to_send": "opaque:Event", "K": "opt[int]", "kex_engine": "opt[opaque:Kex]", "local_kex_init": "opt[bytes]",
+        "remote_kex_init": "opt[bytes]", "authenticated": "bool"})
+    E2.contract(T + "_activate_inbound", returns="none", raises={"SSHException": "True"}, modifies=[],
+                ghost={"inbound_switched": "True"})
+    E2.contract(T + "is_authenticated", returns="bool", modifies=[])
+    E2.contract("paramiko.auth_handler.AuthHandler", argnames=["t"], returns="opaque:AuthH", constructor=True,
+                ghost={"handlers_created": "ghost('handlers_created') + 1"})
+    # the packetizer clears its need-rekey flag when the SECOND direction has switched to the new keys
+    E2.contract("Pk.need_rekey", argnames=["self"], returns="bool",
+                ghost={"need_asked_after_switch": "ghost('inbound_switched')", "need_answer": "result"})
+    E2.declare_ghost(need_answer="bool")
+    E2.contract("Pk._initial_kex_done.setter", argnames=["self", "v"], returns="none")
+    E2.contract("Event.set", argnames=["self"], returns="none")
+    c = dict(params={"m": "opaque:Msg"}, returns="none", raises={"SSHException": "True"}, ensures=dict(ensures),
+             requires=dict(requires or {}))
+    return (T + "_parse_newkeys", name, dict(c, **{
+        "+replace": True, "+contracts": dict(E2.contracts), "+fields": {k: dict(d["fields"]) for k, d in E2.classdecl.items()},
+        "+engine": {"auto_opaque": True, "ghost_types": dict(E.ghost_types, **E2.ghost_types)}}))
